@@ -184,25 +184,33 @@ open MythVerif.Wsq (Elem Pid Holder)
        callback, trypass, peek, wsapi peek) with the fences of the source:
        retd.Nodup ∧ multiset(A) + in-flight + returned = multiset(inserted).
 
-   Proved below, for every capacity, any number of thieves and every interleaving of program steps
-   and store-buffer drains: the machine of `Model/WsQueueTso.lean`, i.e. owner `push` (without
-   re-centring: a push at `top == size` stops), `pop` – fast path, locked slow path, reset path – and
-   `put` (base-side insertion under the lock, without re-centring: a put at `base == 0` stops, still
-   holding the lock; it linearizes when its `base` store drains) against `myth_queue_take` of any
-   number of thieves and `myth_queue_trypass` (trylock; fails at `base == 0`; slot store, `base--`,
-   unlock; it linearizes when its `base` store drains, possibly while the owner is inside a
-   lock-free push or pop) of any number of passers.  Not covered: peek, the wsapi variants, the
-   steal cache, re-centring, clear.  Modelling simplification (DESIGN A.3): the releasing store of unlock is
-   performed on memory right after its fence. -/
+   Proved below, for every capacity, any number of other participants and every interleaving of
+   program steps and store-buffer drains: the machine of `Model/WsQueueTso.lean`, i.e.
+     * owner `push` (without re-centring: a push at `top == size` stops), `pop` – fast path, locked
+       slow path, reset path – and `put` (base-side insertion under the lock, without re-centring:
+       a put at `base == 0` stops, still holding the lock);
+     * any number of other participants, each running any sequence of `myth_queue_take`,
+       `myth_queue_trypass` (trylock – a failure returns 0; `base == 0` returns 0; slot store,
+       `base--`, unlock) and `myth_queue_peek` (lock-free loads of `base`, `top`, one slot; nothing
+       is removed and the value read is only a hint to the caller – nothing is claimed about it).
+   put and trypass linearize when their `base` store DRAINS (the slot store precedes it in the same
+   FIFO buffer), for trypass possibly while the owner is inside a lock-free push or pop.
+   Not covered: the wsapi variants (take with decision callback, wsapi peek), the steal cache,
+   re-centring in push and put, clear.  Modelling simplification (DESIGN A.3): the releasing store
+   of unlock is performed on memory right after its fence. -/
 
-/-- **No loss, no duplication under x86-TSO store buffering (partial: push / pop / put / take / trypass).**
+/-- **No loss, no duplication under x86-TSO store buffering (partial: push / pop / put / take /
+trypass / peek).**
 In every reachable state of the store-buffer machine with the fences of the source, for every
-capacity and any number of thieves and passers: the TSO invariant holds (buffer shapes, memory-side window
-`[lb, mem.top)` = prefix of `A`, `mem.base = lb (+1 while a thief's increment is visible)`), every
-value returned equals the element removed at the linearization point, nothing is returned twice,
-and inserted = deque + in flight + returned as multisets; the three fall-back branches of the
-model's ghost look-ups are unreachable; in a quiescent drained state memory `[base, top)` holds
-exactly the threads not yet resumed. -/
+capacity and any number of other participants (each running take, trypass or peek, in any order):
+the TSO invariant holds (buffer shapes, memory-side window `[lb, mem.top)` = prefix of `A`,
+`mem.base = lb (+1 while a thief's increment is visible)`), every value returned equals the element
+removed at the linearization point, nothing is returned twice, and inserted = deque + in flight +
+returned as multisets; the three fall-back branches of the model's ghost look-ups are unreachable;
+in a quiescent drained state memory `[base, top)` holds exactly the threads not yet resumed; a
+pending inserting `base` store (put, trypass) belongs to the lock holder just before its unlock,
+targets the slot below the logical base, and the buffer's view of that slot is the element it will
+insert when it drains; the overflow tests `base == 0` of put and trypass read the logical base. -/
 theorem C02_no_loss_no_dup_tso_partial (n : Int) (s : St) (h : Reachable step (init FenceCfg.code n) s) :
     Inv s ∧
     (s.ins.Nodup → s.retd.Nodup ∧ (s.A ++ (s.flT.toList ++ (s.flO.toList ++ s.retd))).Perm s.ins) ∧
@@ -211,9 +219,16 @@ theorem C02_no_loss_no_dup_tso_partial (n : Int) (s : St) (h : Reachable step (i
      (∀ p b, s.tpc p = .tk2 b → b < viewTop (s.bufT p) s.top → s.A ≠ [])) ∧
     (s.opc = .idle → (∀ p, s.tpc p = .idle) → s.bufO = [] →
       s.flO = none ∧ s.flT = none ∧ s.lock = .free ∧ s.base = s.lb ∧ s.top = s.lt ∧
-      (∀ k : Nat, k < s.A.length → s.ptr (s.base + k) = s.A[k]?) ∧ (s.A.length : Int) = s.top - s.base) := by
+      (∀ k : Nat, k < s.A.length → s.ptr (s.base + k) = s.A[k]?) ∧ (s.A.length : Int) = s.top - s.base) ∧
+    ((∀ v e, Sto.baseI v e ∈ s.bufO →
+        s.opc = .pt9 ∧ s.lock = .owner ∧ v = s.lb - 1 ∧ viewPtr s.bufO s.ptr v = some e) ∧
+     (∀ p v e, Sto.baseI v e ∈ s.bufT p →
+        (∃ ok, s.tpc p = .tp4 ok) ∧ s.lock = .thief p ∧ v = s.lb - 1 ∧ viewPtr (s.bufT p) s.ptr v = some e)) ∧
+    ((∀ e, s.opc = .pt1 e → viewBase s.bufO s.base = s.lb) ∧
+     (∀ p e, s.tpc p = .tp1 e → viewBase (s.bufT p) s.base = s.lb)) := by
   have hi := reachable_inv n s h
-  exact ⟨hi, no_loss_no_dup n s h, ghost_branches_unreachable s hi, quiescent_mem s hi⟩
+  exact ⟨hi, no_loss_no_dup n s h, ghost_branches_unreachable s hi, quiescent_mem s hi,
+    ⟨owner_baseI s hi, thief_baseI s hi⟩, base_tests_logical s hi⟩
 
 /-! non-vacuity (TSO machine): the owner pushes 1, 2, 3 (capacity 8) with the stores of the last
     push still buffered, starts a pop (its `top` store buffered behind them), and a thief takes
@@ -297,6 +312,13 @@ example : (runs step (init FenceCfg.code 8) exPass).map
     (fun s => (s.retd, s.A, s.top, s.base, s.lock)) = some ([9, 3], [1, 2], 6, 4, .free) := by decide
 example : (runs step (init FenceCfg.code 8) exPass).map (fun s => (s.ins, decide s.ins.Nodup)) =
     some ([9, 3, 2, 1], true) := by decide
+
+open Lbl in
+/-- a peek while the passer's stores are buffered sees the stale `base` and aims at slot 4 (the old
+    head); it changes nothing -/
+example : (runs step (init FenceCfg.code 8) (exPassPre ++ [tPeek 2, t 2, t 2, t 2, t 2])).map
+    (fun s => (s.tpc 2, s.bufT 0, s.A, s.retd)) =
+    some (.pk3 4, [.ptr 3 (some 9), .baseI 3 9], [1, 2], []) := by decide
 
 open Lbl in
 /-- trypass into the very slot an owner's slow-path pop is aimed at: the owner pushed 1 and started a
